@@ -134,6 +134,9 @@ type Trace struct {
 	LateProxies     int      // ProxyReader/ProxyWriter calls made after Wait returned
 	LateProxyNonNil int      // ... that returned a non-nil proxy
 	LateChunksAfter int      // output writes caused by late calls
+	UserWGDoneSeq   int64    // event seq at which the user wait group was released (WithWaitGroup)
+	IDs             map[int]int // Bar.ID() after Wait
+	AddOrder        []int    // bars in the order their Add returned successfully
 }
 
 // StepSeqLast is the event sequence number at the end of the last program step
@@ -198,6 +201,7 @@ type runner struct {
 	waitStarted      atomic.Bool
 	late             atomic.Bool
 	pReady           atomic.Bool
+	uwg              *sync.WaitGroup
 }
 
 type lockedBuf struct {
@@ -577,6 +581,12 @@ func (r *runner) buildDecor(bar, di int, spec *DecorSpec) decor.Decorator {
 			d = decor.OnCompleteOrOnAbort(d, "fin")
 		case "ocmoam":
 			d = decor.OnCompleteMetaOrOnAbortMeta(d, colour)
+		case "cond":
+			d = decor.OnCondition(d, true)
+		case "pred":
+			d = decor.OnPredicate(d, func() bool { return true })
+		case "condelse":
+			d = decor.Conditional(false, decor.Name("never"), d)
 		case "oncomplete-e": // empty replacement messages ("clear on complete")
 			d = decor.OnComplete(d, "")
 		case "onabort-e":
@@ -659,17 +669,16 @@ func (r *runner) buildBarOptions(idx int) (mpb.BarFiller, []mpb.BarOption) {
 	if spec.Priority != nil {
 		opts = append(opts, mpb.BarPriority(*spec.Priority))
 	}
-	if spec.Trim {
-		opts = append(opts, mpb.BarFillerTrim())
-	}
-	if spec.RmOnComplete {
-		opts = append(opts, mpb.BarRemoveOnComplete())
-	}
-	if spec.NoPop {
-		opts = append(opts, mpb.BarNoPop())
-	}
-	if spec.BarWidth > 0 {
-		opts = append(opts, mpb.BarWidth(spec.BarWidth))
+	// boolean options go through the library's "optional" helpers, so that both
+	// outcomes of those are exercised
+	opts = append(opts,
+		mpb.BarOptional(mpb.BarFillerTrim(), spec.Trim),
+		mpb.BarOptOn(mpb.BarRemoveOnComplete(), func() bool { return spec.RmOnComplete }),
+		mpb.BarFuncOptional(func() mpb.BarOption { return mpb.BarNoPop() }, spec.NoPop),
+		mpb.BarFuncOptOn(func() mpb.BarOption { return mpb.BarWidth(spec.BarWidth) }, func() bool { return spec.BarWidth > 0 }),
+	)
+	if spec.ID != 0 {
+		opts = append(opts, mpb.BarID(spec.ID))
 	}
 	if spec.OnComplete {
 		opts = append(opts, mpb.BarFillerOnComplete("DONE"))
@@ -723,7 +732,7 @@ func Run(sc *Scenario, opt Options) *Trace {
 		opt.HardMs = 30000
 	}
 	r := &runner{sc: sc, opt: opt, endSig: make(chan struct{}, 1), serveDone: make(chan struct{}), abort: make(chan struct{})}
-	r.tr = &Trace{Shutdowns: map[[2]int]int{}, EwmaSamples: map[[2]int][]EwmaSample{}, FillCalls: map[int]int{}, TagCalls: map[int]int{}, Added: make([]bool, len(sc.Bars))}
+	r.tr = &Trace{Shutdowns: map[[2]int]int{}, EwmaSamples: map[[2]int][]EwmaSample{}, FillCalls: map[int]int{}, TagCalls: map[int]int{}, IDs: map[int]int{}, Added: make([]bool, len(sc.Bars))}
 	r.bars = make([]*mpb.Bar, len(sc.Bars))
 	r.frameCap = int64(64 + 8*(len(sc.Bars)+sc.CountSteps()))
 	if sc.Cfg.Refresh == "autort" {
@@ -825,6 +834,11 @@ func (t *Trace) clone() *Trace {
 	c.EwmaSamples = map[[2]int][]EwmaSample{}
 	for k, v := range t.EwmaSamples {
 		c.EwmaSamples[k] = append([]EwmaSample(nil), v...)
+	}
+	c.AddOrder = append([]int(nil), t.AddOrder...)
+	c.IDs = map[int]int{}
+	for k, v := range t.IDs {
+		c.IDs[k] = v
 	}
 	c.FillCalls = map[int]int{}
 	for k, v := range t.FillCalls {
@@ -946,8 +960,11 @@ func (r *runner) scenario() {
 	if cfg.Width > 0 {
 		opts = append(opts, mpb.WithWidth(cfg.Width))
 	}
-	if cfg.Pop {
-		opts = append(opts, mpb.PopCompletedMode())
+	opts = append(opts, mpb.ContainerOptional(mpb.PopCompletedMode(), cfg.Pop))
+	if cfg.UserWG {
+		r.uwg = new(sync.WaitGroup)
+		r.uwg.Add(1)
+		opts = append(opts, mpb.ContainerOptOn(mpb.WithWaitGroup(r.uwg), func() bool { return true }))
 	}
 	if cfg.Delay {
 		r.delay = make(chan struct{})
@@ -984,6 +1001,16 @@ func (r *runner) scenario() {
 	r.stepsDone.Store(true)
 	r.curStep.Store("wait")
 	waitDone := make(chan struct{})
+	if r.uwg != nil {
+		go func() {
+			time.Sleep(time.Millisecond)
+			s := r.event("client.uwg.done", 0, nil)
+			r.mu.Lock()
+			r.tr.UserWGDoneSeq = s
+			r.mu.Unlock()
+			r.uwg.Done()
+		}()
+	}
 	go func() {
 		r.p.Wait()
 		s := r.event("client.wait.returned", 0, nil)
@@ -1057,6 +1084,7 @@ pump:
 		if b := r.bar(i); b != nil {
 			r.mu.Lock()
 			r.tr.Final = append(r.tr.Final, GetRec{Step: -1, Bar: i, Cur: b.Current(), Completed: b.Completed(), Aborted: b.Aborted(), Running: b.IsRunning(), Seq: r.seq.Add(1)})
+			r.tr.IDs[i] = b.ID()
 			r.mu.Unlock()
 		}
 	}
@@ -1272,6 +1300,7 @@ func (r *runner) runStepC(st *Step, idx, depth, client int) {
 		r.tr.Adds = append(r.tr.Adds, AddRec{Bar: st.Bar, Err: err, InvSeq: inv, RetSeq: ret})
 		if err == nil {
 			r.tr.Added[st.Bar] = true
+			r.tr.AddOrder = append(r.tr.AddOrder, st.Bar)
 		}
 		r.mu.Unlock()
 	case "incr":
